@@ -18,6 +18,36 @@ pub use crate::buffer::{Buffer, StringDecoder, Utf16Decoder, Utf8Decoder, Utf8Le
 pub use crate::protocols::unreal2::Unreal2StringDecoder;
 pub use crate::utils::{error_by_expected_size, retry_on_timeout, u8_lower_upper};
 
+/// The crate-private sockets, for experiments on real loopback sockets (no
+/// script installed): what is handed to the transport and what it hands back.
+pub mod raw {
+    use crate::protocols::types::TimeoutSettings;
+    use crate::socket::{Socket, TcpSocket, UdpSocket};
+    use crate::GDResult;
+    use std::net::SocketAddr;
+
+    pub fn udp_exchange(
+        address: &SocketAddr,
+        timeout_settings: &Option<TimeoutSettings>,
+        payload: &[u8],
+        size: Option<usize>,
+    ) -> GDResult<Vec<u8>> {
+        let mut socket = UdpSocket::new(address, timeout_settings)?;
+        socket.send(payload)?;
+        socket.receive(size)
+    }
+
+    pub fn tcp_exchange(
+        address: &SocketAddr,
+        timeout_settings: &Option<TimeoutSettings>,
+        payload: &[u8],
+    ) -> GDResult<Vec<u8>> {
+        let mut socket = TcpSocket::new(address, timeout_settings)?;
+        socket.send(payload)?;
+        socket.receive(None)
+    }
+}
+
 /// `maybe_gather!` as a function: `Ok(None)` = section skipped / failed under
 /// Try, `Err` = propagated by `?`.
 pub fn maybe_gather_fn<T>(
